@@ -429,9 +429,15 @@ pub fn run(ctx: &Ctx, rep: &mut Report) {
                 s.truncate(k);
             }
             b.case.max_msg_len = *rng.pick(&[d.min_size().max(8), 16, 40, 128]);
+            b.case.buf_cap = None;
             b.case.max_calls = 8 * s.len() + 512;
             b.case.max_polls = 64 * (s.len() + 64) + 4 * b.case.pend_r.len();
             b.case.monitored = rng.chance(2, 3);
+            if b.case.monitored && rng.chance(1, 3) {
+                // a hand-built buffer of another capacity (any capacity >= MIN_SIZE is legal for a hostile stream)
+                let m = b.case.max_msg_len.max(d.min_size());
+                b.case.buf_cap = Some(*rng.pick(&[m, m + 1, m + d.align(), 3 * m / 2 + 1, 3 * m]));
+            }
             b.case.max_recvs = s.len() + 8;
             b.case.stream = Some(s);
             b.case.msgs.clear();
@@ -606,7 +612,7 @@ pub fn run(ctx: &Ctx, rep: &mut Report) {
         // ---- C10
         if prop == "C10" {
             let stream = case.stream.as_ref().unwrap();
-            let cap = 2 * case.max_msg_len.max(d.min_size());
+            let cap = case.buf_cap.unwrap_or(2 * case.max_msg_len.max(d.min_size()));
             // walk the stream with the reference decoder to predict each recv outcome
             let mut p = 0usize;
             let mut i = 0usize;
